@@ -246,18 +246,30 @@ ReadBackClauses(sl, r) ==
 Step(e, s, rw, sl, ak, ls) ==
   CASE e.ev = "Open" -> Res(<<>>, "open", Idle(e.api, e.dev, e.key), <<>>, <<>>)
     [] e.ev = "Connect" ->
-         Res(   Cl(e.flag = (e.ok \/ s.conn = "open"), "C18:connected-after-connect")      \* a refused retry on a connected client changes nothing
-             \o Cl(e.ok \/ s.conn = "open" \/ ~e.flag, "C18:refused-connect-leaves-disconnected"),
+         Res(   Cl(s.conn = "limbo" \/ e.flag = (e.ok \/ s.conn = "open"), "C18:connected-after-connect")      \* a refused retry on a connected client changes nothing
+             \o Cl(e.ok \/ s.conn \in {"open", "limbo"} \/ ~e.flag, "C18:refused-connect-leaves-disconnected")
+             \* a connect that succeeds on a client that is not connected has opened a connection to the device
+             \o Cl(~e.ok \/ s.conn = "open" \/ ~("newconn" \in DOMAIN e) \/ e.newconn, "C18:connect-opened-no-connection"),
              IF e.ok THEN "connect" ELSE IF s.conn = "open" THEN "connect-refused-while-connected" ELSE "connect-refused",
              [s EXCEPT !.conn = IF e.ok THEN "open" ELSE IF @ = "open" THEN "open" ELSE @], rw, sl)
     [] e.ev = "Disc" ->
+         \* disconnecting a session the DEVICE has reset is outside the statement (the socket is gone already; the unchanged
+         \* library raises from wait_closed() and keeps the flag): nothing is judged there, and `connected` is open afterwards
+         IF s.conn = "reset"
+         THEN Res(<<>>, "disc-" \o e.how \o "-after-reset", [s EXCEPT !.conn = "limbo", !.pc = "idle", !.op = "none"], rw, sl)
+         ELSE
          Res(   Cl(~e.raised, "C18:disconnect-raised")
-             \o Cl(~e.flag, "C18:connected-after-disconnect")
+             \o Cl(s.conn = "limbo" \/ ~e.flag, "C18:connected-after-disconnect")
              \o Cl(s.conn # "open" \/ e.eof, "C18:device-sees-end-of-stream"),
              "disc-" \o e.how \o (IF s.conn = "open" THEN "" ELSE "-while-not-connected"),
              [s EXCEPT !.conn = IF @ = "open" THEN "closed" ELSE @, !.pc = "idle", !.op = "none"], rw, sl)
+    [] e.ev = "Reset" ->      \* the device resets the session in the middle of an operation: how the operation ends is open
+         Res(<<>>, "device-resets-the-session", [s EXCEPT !.conn = "reset", !.pc = "idle", !.op = "none"], rw, sl)
     [] e.ev = "Flag" ->
-         Res(Cl(e.flag = (s.conn = "open"), "C18:connected-iff-open"), "flag", s, rw, sl)
+         Res(   Cl(s.conn = "limbo" \/ e.flag = (s.conn \in {"open", "reset"}), "C18:connected-iff-open")
+             \* ... and while it is connected the client has not closed its socket behind the caller's back
+             \o Cl(s.conn # "open" \/ ~("eofnow" \in DOMAIN e) \/ ~e.eofnow, "C18:socket-closed-while-connected"),
+             "flag", s, rw, sl)
     [] e.ev = "Call" ->
          LET ci == IF Supported(s.api, e.op) THEN CallInfo(e) ELSE [arg |-> "unsupported", cmd |-> NoCmd] IN
          Res(Cl(s.pc = "idle", "harness:call-while-busy"), "call-" \o e.op \o "-" \o ci.arg,
